@@ -775,7 +775,8 @@ Proof.
     rewrite (run_frame live_cfg live_trace (init live_cfg) s1 t Er) in Ho; [exact Ho| |].
     + intros u e Hin. simpl in Hin.
       repeat (destruct Hin as [Hin|Hin]; [inversion Hin; subst; split; [auto|intros ch; discriminate]|]). contradiction.
-    + rewrite init_pc. destruct (Nat.ltb_spec t (nthreads live_cfg)); [simpl in *; lia|reflexivity].
+    + rewrite init_pc. destruct (Nat.ltb_spec t (nthreads live_cfg)) as [Lt|Ge]; [|reflexivity].
+      change (nthreads live_cfg) with 2 in Lt. lia.
   - split; [rewrite finite_exec_start; apply reachable_init|]. split; [simpl; lia|]. split; [reflexivity|].
     vm_compute. repeat split; auto.
 Qed.
